@@ -42,6 +42,7 @@ func checkC11(c *Ctx) (string, error) {
 		checkValueSentinel(c, rw.RT("internal/lib/sync/atomic"))
 		checkSemaLocks(c, rw.RT("internal/lib/runtime"))
 		checkLookupInsertAtomic(c, rw.RT("internal/lib/runtime"))
+		checkNotifyOneUnderLock(c, rw.RT("internal/lib/runtime"))
 		checkTicketDiscipline(c, rw.RT("internal/lib/runtime"))
 		c.Config = ""
 		if lc.String() == defaultCfg.String() {
@@ -53,6 +54,7 @@ func checkC11(c *Ctx) (string, error) {
 			checkAtomicTables(c, w, rw.RT("internal/lib/sync/atomic"))
 			checkAtomicOrdering(c, w)
 			checkGoRecord(c, w.Main("ssa"))
+			checkAddReturnNew(c, w.Main("cl"))
 		}
 	}
 	return "C11 (structural necessary conditions): lockset dataflow over sema_llgo.go (semaState.waiters, semaMap, notifyMap under their mutexes; pairing; Wait in re-testing loops); ticket discipline of the notify list (ordering comparison, Broadcast for per-ticket waiters); constant-evaluated agreement of the atomic intrinsic codes with LLVM's atomicrmw opcodes and of every //go:linkname / llgo:link directive in lib/sync/atomic with the intrinsic of that function family; sequentially consistent ordering at every atomic emit site; heap allocation and symmetric pack/unpack of the go-statement argument record. NOT decided: mutual exclusion, fairness and exactly-once thread start under all schedules.", nil
